@@ -140,6 +140,9 @@ def probes(rng, n_random):
     add("soil_pool_empty", LOGIC)
     names = ["disperser_generation", "natural_dispersal", "anthropogenic_dispersal", "establishment", "weather",
              "lethal_temperature", "movement", "overpopulation", "survival_rate", "soil"]
+    for n in [0, 1, 3, 9, 11, 12, 20]:
+        add("seed_list %d" % n, INVALID)     # too few AND too many seeds are documented errors
+    add("seed_list 10", None)
     add("named_seeds " + ",".join("%s=%d" % (s, i + 1) for i, s in enumerate(names)), None)
     for _ in range(max(3, n_random // 4)):
         miss = rng.randrange(len(names))
